@@ -1,7 +1,7 @@
 (* C17 — workflow results do not depend on worker or schedule (partial: the model covers the two
    scheduling loops, every oracle and every max_concurrent; real pool timing and cloudpickle
    transport of jobs are runtime behaviour covered by the correspondence run only). *)
-From Pydra Require Import Base.Prelude Base.SchedBase Model.Sched Spec.Sched Proofs.SchedH Proofs.SchedI Proofs.SchedK Proofs.SchedL Proofs.SchedM.
+From Pydra Require Import Base.Prelude Base.SchedBase Model.Sched Spec.Sched Proofs.SchedH Proofs.SchedI Proofs.SchedK Proofs.SchedL Proofs.SchedM Proofs.SchedN.
 
 (* job values are an uninterpreted function `body` of (node, index, values read from the results of
    the predecessor nodes' jobs when the node is started) *)
@@ -99,3 +99,21 @@ Example C17_failures_nonvacuous :
   /\ option_eqb tv_eqb (value_of (ls_w (o_final r1)) (2, 0)) (value_of (ls_w (o_final r2)) (2, 0)) = true
   /\ option_eqb tv_eqb (value_of (ls_w (o_final r1)) (2, 0)) (Some (T 2 0 [[Some (T 1 0 [])]])) = true.
 Proof. vm_compute. repeat split. Qed.
+
+(* Sequential loop, graphs with zero-job nodes anywhere (no hypothesis on the number of jobs of a node):
+   2 * (|jobs| + |nodes|) + 3 passes suffice and the outputs are the reference outputs. *)
+Theorem C17_sync_reference_any :
+  forall (V : Type) (body : nat -> nat -> list (list (option V)) -> V) (vr : variant) (g : graph) (k : option nat) (fuel : nat),
+    fix14 vr = true -> wf_graph g -> (forall k', k = Some k' -> 1 <= k') ->
+    2 * (List.length (all_jobs g) + List.length g) + 3 <= fuel ->
+    node_outputs g (run_sync V body (fun _ => false) vr g k fuel) = reference_outputs V body g.
+Proof.
+  intros V body vr g k fuel F WF KP B. apply sync_outputs; auto. apply sync_terminates_any; auto.
+Qed.
+Print Assumptions C17_sync_reference_any.
+
+Example C17_sync_any_nonvacuous :
+  let g := [mkNode 0 [] 0; mkNode 1 [0] 2; mkNode 2 [1] 1] in
+  wf_graph g /\ 2 * (List.length (all_jobs g) + List.length g) + 3 <= 15
+  /\ outs_eqb (node_outputs g (run_sync tv T (fun _ => false) repaired g None 15)) (reference_outputs tv T g) = true.
+Proof. vm_compute. repeat split; repeat constructor. Qed.
